@@ -330,6 +330,7 @@ def run(chk, replay=None):
         shutil.rmtree(wd, ignore_errors=True)
     model = run_lines_parallel(drv, ['analyse'], lines)[1] if os.path.exists(drv) and lines else []
     corr = []
+    ndeps = [0]
     for (text, real, a), m in zip(metas, model):
         mm = re.match(r'type (\S+) vars (\S*) eqs (\S*)', m)
         if not mm:
@@ -339,6 +340,27 @@ def run(chk, replay=None):
         if real['type'] not in VALID:
             continue
         mv = mm.group(2).split(',')
+        # dependencies: what the equations an equation depends on compute (directly solved equations, no external variables)
+        md = re.search(r' eqs (\S*) deps (\S*)$', m)
+        if md and not a['ext']:
+            meq = [(x.split(':')[0], [int(u) for u in x.split(':')[1].split('+') if u]) for x in md.group(1).split(',') if x]
+            mdep = [[int(j) for j in x.split('+') if j] for x in md.group(2).split(',')] if meq else []
+            klass = {}
+            for k, d in enumerate(a['classes']):
+                for c, nm in d['members']:
+                    klass['%s.%s' % (a['cname'][c], nm)] = k
+            want = {}
+            for i, (ty, unk) in enumerate(meq):
+                if ty not in ('unknown', 'nla') and i < len(mdep):
+                    want[frozenset(unk)] = frozenset(u for j in mdep[i] for u in meq[j][1])
+            got = {}
+            for e in real['eqs']:
+                if e['type'] not in ('nla', 'external'):
+                    got[frozenset(klass.get(v, -1) for v in e['vars'])] = frozenset(klass.get(v, -1) for dep in e['deps'] for v in dep)
+            ndeps[0] += len(got)
+            if want != got:
+                bad = [(sorted(k), sorted(want.get(k, [])), sorted(got.get(k, []))) for k in set(want) | set(got) if want.get(k) != got.get(k)]
+                corr.append(('dependencies (classes computed by the equations depended on) of the equation computing %s: model %s, implementation %s' % bad[0], text)); continue
         for k, d in enumerate(a['classes']):
             ent = [real['vars'][(a['cname'][c], nm)] for c, nm in d['members'] if (a['cname'][c], nm) in real['vars']]
             mt, mi = mv[k].split(':')
@@ -349,11 +371,11 @@ def run(chk, replay=None):
                         'their missing-equation / extra-initial-value variants, and %d permutations (components, variables, equations, connections; every other one consistently renamed) of each; '
                         'one evaluation = one analysis compared with the Lean model or with the unpermuted analysis' % nperm,
                    samples=[lines[0][:300] if lines else '', model[0][:200] if model else ''],
-                   traces_validated_against_impl=len(lines) - len(corr), exhaustive=False, outcome_histogram=stats)
+                   traces_validated_against_impl=len(lines) - len(corr), exhaustive=False, outcome_histogram=dict(stats, dependency_sets_compared=ndeps[0]))
     for o in oracle[:3]:
         what, texts = o[0], o[1]
         chk.violation('analysis is not consistent: ' + what, {'kind': 'oracle', 'engine': 'analyse', 'cellml': texts, 'externals': o[2] if len(o) > 2 else [], 'family': o[3] if len(o) > 3 else 'generated', 'why': what}, True)
     if not oracle:
         for what, text in corr[:3]:
             chk.violation('analyser model and Analyser::analyseModel disagree (correspondence `analyse` broken): ' + what,
-                          {'kind': 'correspondence', 'engine': 'analyse', 'cellml': [text], 'why': what, 'theorem': 'Cellml.Props.C05.loop_complete / indices_dense'}, False)
+                          {'kind': 'correspondence', 'engine': 'analyse', 'cellml': [text], 'why': what, 'theorem': 'Cellml.Props.C05.loop_complete / indices_dense / reads_imply_depends'}, False)
